@@ -7,9 +7,9 @@ import ast
 from .. import logic
 from ..program import FuncModel
 from ..report import Check
-from ..repo import own_walk, text
+from ..repo import AnalysisError, own_walk, text
 from .common import (ATTR_FIELDS, SD_MOD, GrowthModel, callee_name, escapes, expanded_assertions, fresh_diagrams,
-                     handle_stores, is_empty_list, is_none, is_true, region_of)
+                     handle_stores, is_empty_list, is_false, is_none, is_true, region_of)
 
 EXPLANATION = (
     "Typestate rule over every function of the package: (R1) every event that gives a node of a non-fresh "
@@ -41,11 +41,61 @@ def is_reset_value(e: ast.AST | None) -> bool:
     return is_none(e) or is_empty_list(e)
 
 
+def r5(ck: Check, gm: GrowthModel) -> None:
+    """Between the reset of a node's attractor data and the point where the node has its successors, nothing asks a caching
+    accessor to compute that data again: the answer would be computed for a node that still has no (or not all) successors,
+    stored, and never discarded."""
+    COMPUTING = {"node_attractor_candidates", "node_attractor_seeds", "node_attractor_sets", "_has_no_attractor_candidates"}
+    for fm in ck.prog.models():
+        if fm.f.key in gm.wrappers:
+            continue
+        evs = gm.events(fm)
+        if not evs:
+            continue
+        fresh = fresh_diagrams(fm)
+        for c in own_walk(fm.f.node):
+            if not (isinstance(c, ast.Call) and callee_name(c) in COMPUTING and c.args):
+                continue
+            comp = next((k.value for k in c.keywords if k.arg == "compute"), None)
+            if callee_name(c) != "_has_no_attractor_candidates" and (comp is None or is_false(comp)):
+                continue
+            if isinstance(c.func, ast.Attribute):
+                diag_e, node_e = c.func.value, c.args[0]
+            else:
+                diag_e, node_e = c.args[0], (c.args[1] if len(c.args) > 1 else None)
+            if node_e is None or (isinstance(diag_e, ast.Name) and diag_e.id in fresh):
+                continue
+            cn = fm.cfgn(c)
+            try:
+                hk = (fm.vkey(diag_e, cn), fm.vkey(node_e, cn))
+            except AnalysisError:
+                continue
+            later = [g for g in evs if (fm.vkey(g.diag_expr, g.cfgn), fm.vkey(g.parent_expr, g.cfgn)) == hk
+                     and g.cfgn.id in fm.cfg.reach_avoiding(cn, [])]
+            if not later:
+                # parents reached through an id map (sub-diagram attachment): any later growth of the same diagram may concern
+                # this node
+                later = [g for g in evs if fm.vkey(g.diag_expr, g.cfgn) == hk[0] and g.cfgn.id in fm.cfg.reach_avoiding(cn, [])
+                         and not any(e.kind == "store" and e.hk == (fm.vkey(g.diag_expr, g.cfgn), fm.vkey(g.parent_expr, g.cfgn))
+                                     for e in fm.field_events())
+                         and g.parent_expr is not None and not is_none(g.parent_expr)]
+            if not later:
+                continue
+            # data computed here is discarded again if a reset of the same node lies on every way to the growth
+            resets = [e.cfgn for fld in ("attractor_candidates", "attractor_seeds") for e in handle_stores(fm, hk, fld) if is_reset_value(e.value)]
+            bad = [g for g in later if g.cfgn.id in fm.cfg.reach_avoiding(cn, resets) and not g.resets]
+            ck.ob("R5", fm, fm.f.stmt_of(c), not bad, "attractor data computed before the node grows is reset again on the way" if not bad else
+                  f"`{text(c)[:60]}` computes (and caches) attractor data of `{text(node_e)}` before the node receives successors at line "
+                  f"{bad[0].stmt.lineno}: the data describes the node without these successors and is never discarded afterwards",
+                  key=f"compute before growth in {fm.f.name}")
+
+
 def run(ck: Check) -> None:
     prog = ck.prog
     gm = GrowthModel(prog)
     ck.note("primitive growth wrappers: " + ", ".join(sorted(k.split(":")[1] for k in gm.wrappers)))
     r1(ck, gm)
+    r5(ck, gm)
     r2(ck)
     r3(ck)
     r4(ck)
